@@ -1,0 +1,38 @@
+//go:build verif
+
+package node
+
+// Verification-only exports (build tag "verif") for the handshake / access-control harness:
+// the decision functions RouteSpawn and RouteApplicationStart consult, without spawning anything.
+// Add-only; nothing here is compiled into a normal build.
+
+import (
+	"fmt"
+	"reflect"
+
+	"ergo.services/ergo/gen"
+)
+
+// VerifSpawnAccess calls network.getEnabledSpawn(name, source) exactly as RouteSpawn does and
+// returns the error and the type of the behavior the returned factory makes.
+func VerifSpawnAccess(n gen.Node, name gen.Atom, source gen.Atom) (string, error) {
+	nn, ok := n.(*node)
+	if ok == false {
+		return "", fmt.Errorf("not a *node")
+	}
+	factory, err := nn.network.getEnabledSpawn(name, source)
+	if err != nil {
+		return "", err
+	}
+	return reflect.TypeOf(factory()).String(), nil
+}
+
+// VerifApplicationStartAccess calls network.isEnabledApplicationStart(name, source) exactly as
+// RouteApplicationStart does.
+func VerifApplicationStartAccess(n gen.Node, name gen.Atom, source gen.Atom) error {
+	nn, ok := n.(*node)
+	if ok == false {
+		return fmt.Errorf("not a *node")
+	}
+	return nn.network.isEnabledApplicationStart(name, source)
+}
